@@ -15,7 +15,9 @@ ASSUME = ["1e-9 relative tolerance; division by zero compared as nan/inf classes
 
 def run(tier):
     stages = [("MCStatsCheck", "MCStatsCheck_quick.cfg" if tier == "quick" else "MCStatsCheck_t1.cfg", "stats"),
-              ("MCStatCli", "MCStatCli_quick.cfg", "stats")]
+              ("MCStatCli", "MCStatCli_quick.cfg", "stats"),
+              # spectra with more than 2^16 cells (257 x 257, 41^3, 17^4): exact statistics from TLC against stat
+              ("MCStatsCheck", "MCStatsCheck_huge.cfg", "stats", {"workers": 3})]
     return standard("C06", tier, "model_checking", RULE, ASSUME, stages,
                     sabotage=[("MCStatsCheck", "MCStatsCheck_abPi.cfg", ["SpectrumMatchesGenotypes"]),
                               ("MCStatCli", "MCStatCli_abSort.cfg", ["RowMatchesRequest"])])
